@@ -93,6 +93,16 @@ def _sha256_json(obj: Any) -> str:
     ).hexdigest()
 
 
+def _json_safe_sample(value: Any) -> Any:
+    """Return ``value`` if JSON serialisable, else its ``repr``."""
+
+    try:
+        json.dumps(value)
+        return value
+    except (TypeError, ValueError):
+        return repr(value)
+
+
 def variable_domain_signature(spec: Any) -> Dict[str, Any]:
     """Summarise sweep variable domains without materialising unbounded data."""
 
@@ -108,7 +118,8 @@ def variable_domain_signature(spec: Any) -> Dict[str, Any]:
         }
     if name == "SequenceSpec":
         values = list(spec.values)
-        head, tail = values[:3], values[-3:]
+        head = [_json_safe_sample(v) for v in values[:3]]
+        tail = [_json_safe_sample(v) for v in values[-3:]]
         try:
             digest = _sha256_json(values)
         except TypeError:
